@@ -44,8 +44,14 @@ func (r *dynRes) key(name string) Key {
 func (r *dynRes) gr() schema.GroupResource { return r.gvr.GroupResource() }
 
 // injected builds the error of an injected fault with the configured HTTP status (500 unless FailCode says 403 or 422).
-func (c *Cluster) injected(verb string) error {
+func (c *Cluster) injected(verb string, kind ...string) error {
 	msg := fmt.Sprintf("injected fault (%s)", verb)
+	// 409 AlreadyExists: what a CREATE gets when another client created the object first.  Not for the other verbs (a 409
+	// Conflict makes kubectl retry the PATCH), and not for Namespaces (the library's own create of the inventory namespace
+	// takes AlreadyExists for success, by design): those get a 500.
+	if c.FailCode == 409 && verb == "create" && !(len(kind) > 0 && kind[0] == "Namespace") {
+		return &apierrors.StatusError{ErrStatus: metav1.Status{Status: metav1.StatusFailure, Code: 409, Reason: metav1.StatusReasonAlreadyExists, Message: msg}}
+	}
 	switch c.FailCode {
 	case 403:
 		return &apierrors.StatusError{ErrStatus: metav1.Status{Status: metav1.StatusFailure, Code: 403, Reason: metav1.StatusReasonForbidden, Message: msg}}
@@ -73,7 +79,7 @@ func (r *dynRes) Create(ctx context.Context, obj *unstructured.Unstructured, o m
 	defer r.c.end(req)
 	if req.Rejected {
 		req.Result = "error"
-		return nil, r.c.injected("create")
+		return nil, r.c.injected("create", obj.GetKind())
 	}
 	res, st := r.c.doCreate(k, obj, req.DryRun)
 	req.Result = st
